@@ -318,26 +318,47 @@ def e2e_grid():
     import datashard
     from datashard.data_structures import Schema
     nan = float("nan")
+    import datetime as _dt
     schema = Schema(schema_id=1, fields=[{"id": 1, "name": "k", "type": "long", "required": True},
                                          {"id": 2, "name": "c", "type": "double", "required": False},
-                                         {"id": 3, "name": "s", "type": "string", "required": False}])
+                                         {"id": 3, "name": "s", "type": "string", "required": False},
+                                         {"id": 4, "name": "i", "type": "long", "required": False},
+                                         {"id": 5, "name": "b", "type": "boolean", "required": False},
+                                         {"id": 6, "name": "d", "type": "date", "required": False},
+                                         {"id": 7, "name": "t", "type": "timestamp", "required": False},
+                                         {"id": 8, "name": "f", "type": "float", "required": False}])
     root = tempfile.mkdtemp(prefix="vf_c12_")
     n = 0
     try:
         t = datashard.create_table(root + "/t", schema=schema)
         L = "u" * 40
-        rows = [{"k": 0, "c": None, "s": None}, {"k": 1, "c": nan, "s": ""}, {"k": 2, "c": 0.5, "s": "a"}, {"k": 3, "c": -0.0, "s": "é"},
-                {"k": 4, "c": float("inf"), "s": "b"}, {"k": 5, "c": 0.5, "s": "a"}, {"k": 6, "c": 1.0, "s": L + "a"}, {"k": 7, "c": 2.0, "s": L + "z"}]
+        D, TS = _dt.date, _dt.datetime
+        rows = [
+            {"k": 0, "c": None, "s": None, "i": None, "b": None, "d": None, "t": None, "f": None},
+            {"k": 1, "c": nan, "s": "", "i": -1, "b": True, "d": D(1969, 12, 31), "t": TS(2024, 1, 1, 12, 0, 0, 1750), "f": nan},
+            {"k": 2, "c": 0.5, "s": "a", "i": 0, "b": False, "d": D(2024, 1, 1), "t": TS(2024, 1, 1, 12, 0, 0, 1000), "f": 0.5},
+            {"k": 3, "c": -0.0, "s": "é", "i": 2 ** 53 + 1, "b": True, "d": D(2024, 12, 31), "t": TS(2024, 1, 1, 12, 0, 0, 999999), "f": 16777216.0},
+            {"k": 4, "c": float("inf"), "s": "b", "i": 2 ** 53, "b": None, "d": D(2024, 1, 1), "t": None, "f": float("-inf")},
+            {"k": 5, "c": 0.5, "s": "a", "i": 0, "b": False, "d": None, "t": TS(1970, 1, 1), "f": 1.5},
+            {"k": 6, "c": 1.0, "s": L + "a", "i": 7, "b": True, "d": D(2000, 2, 29), "t": TS(2024, 1, 1, 12, 0, 0, 1751), "f": 0.25},
+            {"k": 7, "c": 2.0, "s": L + "z", "i": 7, "b": True, "d": D(2000, 2, 29), "t": TS(2024, 1, 1, 12, 0, 0, 1749), "f": 0.75},
+        ]
         t.append_records(rows[:3])
         t.append_records(rows[3:6])
         t.append_records(rows[6:])
         conds = []
-        for col, lits in (("c", [0.5, 0.0, float("inf")]), ("s", ["a", "", "é", "u" * 40 + "z", "u" * 40 + "m"])):
+        lits_by_col = (("c", [0.5, 0.0, float("inf")]), ("s", ["a", "", "é", L + "z", L + "m"]), ("i", [0, 7, 2 ** 53, 2 ** 53 + 1]),
+                       ("d", [D(2024, 1, 1), D(2000, 2, 29), D(1969, 12, 31)]),
+                       ("t", [TS(2024, 1, 1, 12, 0, 0, 1750), TS(2024, 1, 1, 12, 0, 0, 1000), TS(1970, 1, 1)]), ("f", [0.5, 0.25, 16777216.0]))
+        for col, lits in lits_by_col:
             for v in lits:
                 for op in ("==", "!=", "<", "<=", ">", ">="):
                     conds.append((col, op, v))
                 conds += [(col, "in", [v]), (col, "in", [v, None]), (col, "not_in", [v]), (col, "not_in", [v, None]), (col, "between", (v, lits[0]))]
             conds += [(col, "in", []), (col, "not_in", []), (col, "is_null", True), (col, "is_not_null", True)]
+        for v in (True, False):
+            conds += [("b", "==", v), ("b", "!=", v), ("b", "in", [v]), ("b", "not_in", [v, None])]
+        conds += [("b", "is_null", True), ("b", "is_not_null", True)]
         for col, op, v in conds:
             exp = sorted(r["k"] for r in rows if matches(op, r[col], v))
             f = {col: filter_value(op, v)}
